@@ -15,7 +15,9 @@ static int parse_bits_list(const char *s, double **ret) {
     if (n == cap) { cap *= 2; p = realloc(p, sizeof(double)*cap); }
     p[n++] = d;
   }
-  free(dup); *ret = p; return n;
+  free(dup);
+  { double *q = malloc(sizeof(double) * (n ? n : 1)); memcpy(q, p, sizeof(double) * n); free(p); p = q; } /* exact size: ASan sees p[N] */
+  *ret = p; return n;
 }
 
 static int parse_f32_list(const char *s, float **ret) {
@@ -25,7 +27,9 @@ static int parse_f32_list(const char *s, float **ret) {
     if (n == cap) { cap *= 2; p = realloc(p, sizeof(float)*cap); }
     p[n++] = f;
   }
-  free(dup); *ret = p; return n;
+  free(dup);
+  { float *q = malloc(sizeof(float) * (n ? n : 1)); memcpy(q, p, sizeof(float) * n); free(p); p = q; }   /* exact size: ASan sees p[N] */
+  *ret = p; return n;
 }
 
 static void h_op(void)
